@@ -239,3 +239,7 @@ def register(reg, ctx=None):
     _register_own(reg)
     from .C01 import register_notifying_mutators
     register_notifying_mutators(reg, PROP)
+
+
+from .common import bounded_conversions
+BOUNDED = [bounded_conversions]
